@@ -576,7 +576,13 @@ impl<T: ArrayValue> Array<T> {
         row_shape: Shape,
     ) -> impl ExactDoubleIterator<Item = Self> + '_ {
         let row_len = row_shape.elements();
-        let row_count = self.element_count() / row_len;
+        let row_count = if row_len == 0 {
+            // Empty rows: their number can only come from the leading axes
+            let depth = self.rank().saturating_sub(row_shape.len());
+            self.shape[..depth].iter().product()
+        } else {
+            self.element_count() / row_len
+        };
         (0..row_count).map(move |i| {
             let start = i * row_len;
             let end = start + row_len;
